@@ -79,11 +79,14 @@ def gen(tier, rng):
     cases = []
     k = 0
     for ty, (gm, npay) in sorted(TTYPES.items()):
-        for vlen in (0, 1, 2, 3):
+        # thorough: longer Vec / Box<[T]> members (at most 30 payloads: the drop counters are 32) and every single lock killed
+        for vlen in ((0, 1, 2, 3) if tier == "quick" else (0, 1, 2, 3, 4, 5)):
             uses_vlen = npay(0) != npay(1)
             if not uses_vlen and vlen != 2:
                 continue
             n = npay(vlen)
+            if n > 30:
+                continue
             for poison in (False, True):
                 for path in ("drop", "drop_unwinding", "into_inner", "into_child", "get_mut", "lock_into_inner",
                              "try_new_reject", "try_new_reject_retry", "try_new_accept", "into_iter", "into_iter_first"):
@@ -100,7 +103,7 @@ def gen(tier, rng):
                         cases.append(TCase(f"t16_{k}", ty, vlen, poison, path, w))
                         k += 1
             # killed locks (their raw lock panicked in a release): the value paths that do not lock must not depend on it
-            for kill in (["a", 0, n - 1] if n > 1 else ["a"] if n else []):
+            for kill in ((["a"] + list(range(n)) if tier != "quick" else ["a", 0, n - 1]) if n > 1 else ["a"] if n else []):
                 for path in ("drop", "drop_unwinding", "into_inner", "into_child", "get_mut", "try_new_reject",
                              "try_new_reject_retry", "into_iter", "into_iter_first"):
                     if path == "get_mut" and not gm:
